@@ -143,6 +143,108 @@ def effects_of(fn):
     return sorted(set((a, b, c, tuple(d)) for a, b, c, d in out))
 
 
+RETURN_FILES = ("sbe_schema_validator.hpp", "sbe_schema_cpp_validator.hpp")
+
+
+def ret_key(fn):
+    """stable name of a value-returning helper of the validators; lambdas are named after their owner + parameters"""
+    if fn.get("lambda"):
+        base = fn.get("base") or fn.get("qn") or ""
+        owner = base.split("(")[0]
+        owner = re.sub(r"^sbepp::sbeppc::", "", owner)
+        ps = ",".join(re.sub(r"sbepp::sbeppc::|std::|const |&| ", "", p.get("t", "")) for p in fn.get("params") or [])
+        return "%s::(lambda %s)" % (owner, ps[:80])
+    return short_fn(fn)
+
+
+def returns_of(fn):
+    """value-returning exits of a helper: (normalised returned expression, dominating guard)"""
+    par = gen.parents(fn)
+    out = []
+    is_bool = (fn.get("ret") or "").replace("const ", "") == "bool"
+    for n in walk(fn["body"]):
+        if n.get("k") != "ReturnStmt" or n.get("sub") is None:
+            continue
+        # returns of nested lambdas belong to those lambdas
+        cur, inside = n, False
+        while id(cur) in par:
+            cur = par[id(cur)][0]
+            if cur.get("k") == "LambdaExpr":
+                inside = True
+                break
+        if inside:
+            continue
+        if is_bool:
+            e = " && ".join(sorted(norm_cond(n["sub"], True, fn)))
+        else:
+            e = opt_norm(gen.expr_text(n["sub"], 0, fn))
+        out.append((e[:300], tuple(guard_of(fn, n, par))))
+    return sorted(set(out))
+
+
+def extract_returns(f=None):
+    f = f or gen.facts()
+    out = {}
+    # generic lambdas (`[](const auto& v) { return v.name == ...; }`) only exist as templates: their dependent
+    # bodies are read as written
+    fns = gen.sbeppc_functions(f) + [fn for fn in f["functions"] if "/sbeppc/src/" in fn["file"] and fn.get("body") is not None
+                                     and fn.get("dependent") and fn.get("lambda")]
+    for fn in fns:
+        if not fn["file"].endswith(RETURN_FILES) or fn.get("body") is None:
+            continue
+        rt = fn.get("ret") or "void"
+        if rt == "void" or (fn.get("dependent") and not fn.get("lambda")):
+            continue
+        rs = returns_of(fn)
+        if rs:
+            out.setdefault(ret_key(fn), []).append((rs, fn))
+    return out
+
+
+def check_returns(chk):
+    """G-RET: every value-returning helper the validators decide with (is_sbe_symbolic_name, can_be_parsed_as_fp,
+    value_fits_into_type, get_actual_presence, find_value_ref's matcher, is_*_type ...) returns, at each exit, the
+    hand-confirmed expression under the hand-confirmed guard."""
+    table = json.load(open(TABLE))
+    want_all = table.get("returns")
+    if not want_all:
+        chk.broke("rules/validator_guards.json has no `returns` section")
+        return
+    found = extract_returns()
+    n = 0
+    for key, variants in want_all.items():
+        got = found.get(key)
+        if not got:
+            chk.broke("G-RET: helper %s not found (renamed or removed: re-confirm the table)" % key)
+            continue
+        wants = [sorted((e, tuple(g)) for e, g in v) for v in variants]
+        for rs, fn in got:
+            n += 1
+            if rs in wants:
+                chk.ok("G-RET", key + "#" + str(fn["line"]), {"helper": key, "exits": len(rs)})
+                continue
+            want = wants[0]
+            missing = [x for x in want if x not in rs]
+            added = [x for x in rs if x not in want]
+            known = set(p["name"] for p in fn.get("params") or [])
+            for v in wants:
+                for e, g in v:
+                    known |= idents(e) | idents(" ".join(g))
+            unknown = set()
+            for e, g in added:
+                unknown |= idents(e) | idents(" ".join(g))
+            unknown -= known | {"this", "operator", "bool"}
+            text = "exits of %s changed: confirmed %s, found %s" % (key, missing, added)
+            if unknown:
+                chk.broke("G-RET: %s uses identifiers the confirmed row does not know %s: %s" % (key, sorted(unknown)[:6], text[:400]))
+            else:
+                chk.violation("G-RET", key, "%s:%s" % (rel(fn["file"]), fn["line"]), text)
+    new = [k for k in found if k not in want_all]
+    for k in new:
+        chk.notes.append("G-RET: helper without a table row: %s" % k)
+    chk.floor("G-RET helpers", n, 20)
+
+
 def extract(f=None):
     f = f or gen.facts()
     sites = {}
@@ -182,8 +284,9 @@ def check(chk, only_prefixes=None):
                       "if the check was removed this is a C08 violation)" % key)
             continue
         want = sorted(row["guard"])
+        alts = [want] + [sorted(x) for x in row.get("other_instantiations", [])]
         for g, fc in found:
-            if g == want:
+            if g in alts:
                 chk.ok("G-GUARD", key + "#" + str(fc.line), {"site": key, "guard": g, "where": fc.where})
             else:
                 known = idents(" ".join(want)) | set(p["name"] for p in fc.fn.get("params") or []) | idents(row.get("vocab", ""))
@@ -237,7 +340,14 @@ def regen():
     out = {"comment": "hand-confirmed guards of sbeppc throw sites (key = function | diagnostic text) and layout effects; "
                       "regenerated with sa/gguard.py --regen and then reviewed line by line against the rule the "
                       "diagnostic states",
-           "sites": {}, "effects": {}}
+           "sites": {}, "effects": {}, "returns": {}}
+    for k, lst in sorted(extract_returns().items()):
+        vs = []
+        for rs, _ in lst:
+            v = [[e, list(g)] for e, g in rs]
+            if v not in vs:
+                vs.append(v)
+        out["returns"][k] = vs
     for k, lst in sorted(sites.items()):
         gs = sorted(set(tuple(g) for g, _ in lst))
         row = old["sites"].get(k, {})
@@ -256,9 +366,6 @@ def regen():
     print("wrote", TABLE, len(out["sites"]), "sites")
 
 
-if __name__ == "__main__":
-    if "--regen" in sys.argv:
-        regen()
 
 
 
@@ -301,3 +408,8 @@ def check_memo_caches(chk):
             else:
                 chk.ok("G-CACHE", key, {"cache": tested, "only_filled_by": sf})
     chk.floor("memo guards", n, 2)
+
+
+if __name__ == "__main__":
+    if "--regen" in sys.argv:
+        regen()
